@@ -13,6 +13,27 @@ obl = []
 for f in sorted(glob.glob(os.path.join(LEAN, 'Properties', 'C*.lean')) + glob.glob(os.path.join(LEAN, 'Extracted', 'Equiv*.lean'))):
     obl += re.findall(r'^-- OBLIGATION: (\S+)', open(f).read(), re.M)
 text = open(os.path.join(LEAN, 'Properties', 'NonVacuity.lean')).read()
+
+
+def strip_block_comments(t):
+    """remove (nested) block comments: an example inside one is not checked by Lean and must not count as a witness.
+    (Three sections once sat inside the header comment of the audit file - found 2026-10-01 and moved out.)"""
+    out, depth, i = [], 0, 0
+    while i < len(t):
+        if t.startswith('/-', i):
+            depth += 1
+            i += 2
+        elif t.startswith('-/', i) and depth:
+            depth -= 1
+            i += 2
+        else:
+            if depth == 0:
+                out.append(t[i])
+            i += 1
+    return ''.join(out)
+
+
+text = strip_block_comments(text)
 tags = collections.Counter()
 seen = collections.Counter()
 for kind, name in re.findall(r'^-- (NONVACUOUS|NO-HYPOTHESES|VACUOUS\?): (\S+)', text, re.M):
